@@ -358,6 +358,10 @@ func decodeProps(r *reader, ptype byte, strict bool) (Props, error) {
 			}
 		}
 		if e != nil {
+			if isShort(e) {
+				// the field runs past the end of the property block (not necessarily past the buffer)
+				return nil, fmt.Errorf("%w: property 0x%02x exceeds the property block", ErrMalformed, id)
+			}
 			return nil, fmt.Errorf("property 0x%02x: %w", id, e)
 		}
 		if strict {
@@ -391,4 +395,12 @@ func checkPropValue(p Prop, ptype byte) error {
 		}
 	}
 	return nil
+}
+
+// DecodePropsOnly decodes a bare property block (length prefix + properties) as the broker's
+// Properties.Decode is given it; ptype 99 selects will properties.
+func DecodePropsOnly(body []byte, ptype byte, strict bool) (Props, int, error) {
+	r := &reader{b: body}
+	ps, err := decodeProps(r, ptype, strict)
+	return ps, r.off, err
 }
